@@ -23,7 +23,7 @@ ASSUMPTIONS = ["terms are simple-label terms; feature labels distinct within a l
                "acyclic sequence parents"]
 
 EVENT_TRACES = ("T_AoefTrace",)
-TRACE_EVERY = {"quick": 3, "thorough": 1}
+TRACE_EVERY = {"quick": 4, "thorough": 4}
 _TIER = os.environ.get("VERIF_TIER", "quick")
 
 def execute(case):
@@ -38,6 +38,8 @@ def execute(case):
 
 def trace_module(o):
     """every observation is judged on its document; every k-th one also has its hook trace walked by the registry machine"""
+    if str(o.get("src", "")).startswith("bundled:"):
+        return ["T_AoefC02"]          # no graph description, no hook trace: document clauses only
     return ["T_AoefC02", "T_AoefTrace"] if o["id"] % TRACE_EVERY.get(_TIER, 3) == 0 else ["T_AoefC02"]
 
 def project(tm, o):
@@ -49,6 +51,12 @@ def project(tm, o):
 def random_cases(rng, tier):
     """random object graphs an order of magnitude larger than the enumerated worlds"""
     yield from ac.random_worlds(rng, 150 if tier == "quick" else 1500)
+
+def extra_observations(work, tier, seed):
+    """bundled documents of the repository: load -> save -> analyse / reload (code -> spec direction)"""
+    WORK.mkdir(parents=True, exist_ok=True)
+    for p in ac.bundled(tier):
+        yield ac.run_recorded(p, WORK)
 
 def nontrivial(o):
     return len(o["in"].get("sw", [])) > 0
